@@ -5,12 +5,14 @@
    with trusted decoders only) plus digests of everything it saw and of the response.
 
      [req, opts, kind, resp, ev: [iface, reached, method, path, query, hmap, has_ctype, ctype, clen, host, port,
-                            netloc, scheme, root, peer, body, status, dg, rs]]
+                            netloc, scheme, root, peer, body, status, foreign, dg, rs]]
 
    Total: every event is consumed; the first failing clause is recorded in `verdict`.
      H:illformed        the harness produced a request outside WellFormed (machinery failure)
      P:reached          the application logic was not reached although the request is well-formed
      P:method ... P:body   a field differs from ServerIface!View of the abstract request
+     P:history-leak     a container handed out with the request shows what an EARLIER request of the same
+                        application object stored (Ev.foreign = the containers concerned)
      P:status           the status differs from the responder's
      P:equal-request    the digest of all request attributes differs from another interface's
      P:equal-response   the normalised response differs from another interface's
@@ -59,6 +61,7 @@ Judge ==
     IF ~Ev.reached THEN "P:reached"
     ELSE LET f == IF Canonical(T.req.headers) THEN Fields(view) ELSE "ok" IN
       IF f # "ok" THEN f
+      ELSE IF Ev.foreign # <<>> THEN "P:history-leak"       \* ServerIface: the view of request n is a function of request n alone
       ELSE IF Ev.status # ResponderStatus(T.kind, T.resp) THEN "P:status"
       ELSE IF first # 0 /\ Ev.dg # T.ev[first].dg THEN "P:equal-request"
       ELSE IF first # 0 /\ Ev.rs # T.ev[first].rs THEN "P:equal-response"
